@@ -4,6 +4,7 @@ import (
 	"fmt"
 	"go/types"
 	"sort"
+	"strings"
 
 	"golang.org/x/tools/go/ssa"
 )
@@ -35,7 +36,10 @@ func rulesC07(w *World, r *Report) {
 	w.ruleDecoderForms(r, "C07.R3 reader accepts every spec form", "long")
 	w.rulePairOctets(r, "C07.R3 encoder/decoder octet agreement", "int")
 	w.rulePairOctets(r, "C07.R3 encoder/decoder octet agreement", "long")
+	w.ruleWrapperForwards(r, "C07.R3 read wrappers forward the decoder", "int")
+	w.ruleWrapperForwards(r, "C07.R3 read wrappers forward the decoder", "long")
 	w.ruleKindNarrowing(r, "C07.R4 no silent narrowing in the kind dispatch")
+	w.ruleNoIntThroughFloat(r, "C07.R5 decoded integers never pass through a floating-point type")
 	r.note("spec table digest %s", specDigest())
 }
 
@@ -43,55 +47,117 @@ func rulesC08(w *World, r *Report) {
 	w.ruleDoubleEncoder(r, "C08.R1 totality", "C08.R2 form ranges and octets")
 	w.ruleDecoderForms(r, "C08.R3 reader accepts every spec form", "double")
 	w.rulePairOctets(r, "C08.R3 encoder/decoder octet agreement", "double")
+	w.ruleWrapperForwards(r, "C08.R3 read wrappers forward the decoder", "double")
 	w.ruleFloatKinds(r, "C08.R3 float kinds use the double codec on both sides")
+	w.ruleNoValueRejection(r, "C08.R4 the float field reader rejects nothing but a failed read", []string{"Float32", "Float64"})
 	r.note("spec table digest %s", specDigest())
 }
 
 // ruleKindNarrowing: integer conversions in WriteData.
 func (w *World) ruleKindNarrowing(r *Report, rule string) {
-	wd := w.fn("(*Encoder).WriteData")
-	if wd == nil {
+	wd0 := w.fn("(*Encoder).WriteData")
+	if wd0 == nil {
 		r.undecided(rule, "(*Encoder).WriteData", "-", "anchor not found")
 		return
 	}
-	r.fnSeen(fnName(wd))
-	f := w.flow(wd)
+	// every *Encoder method reachable from the encode entry points (a fast path
+	// beside the kind dispatch must obey the same discipline)
+	reach := w.reachPkg(w.encoderRoots()...)
 	n := 0
-	cnt := map[string]int{}
-	for _, b := range wd.Blocks {
-		if !f.Reachable(b) {
+	for _, wd := range w.SrcFuncs() {
+		if !reach[wd] || wd.Signature.Recv() == nil || !namedIs(wd.Signature.Recv().Type(), hessianPath, "Encoder") {
 			continue
 		}
-		for _, in := range b.Instrs {
-			cv, ok := in.(*ssa.Convert)
-			if !ok {
+		r.fnSeen(fnName(wd))
+		f := w.flow(wd)
+		cnt := map[string]int{}
+		for _, b := range wd.Blocks {
+			if !f.Reachable(b) {
 				continue
 			}
-			sb, ssig, ok1 := intTypeInfo(w, cv.X.Type())
-			tb, tsig, ok2 := intTypeInfo(w, cv.Type())
-			if !ok1 || !ok2 {
-				continue
-			}
-			n++
-			nm := fmt.Sprintf("%s(%s)", typeStr(cv.Type()), typeStr(cv.X.Type()))
-			cnt[nm]++
-			key := fmt.Sprintf("(*Encoder).WriteData · conversion %s #%d", nm, cnt[nm])
-			src, _ := f.ValueAt(cv.X, b)
-			_, changed := src.wrap(tb, tsig)
-			kinds := f.kindsAt(b)
-			switch {
-			case !changed:
-				o := r.add(rule, key, w.instrPos(cv), true, fmt.Sprintf("operand ∈ %s fits %s (kinds here: %v)", src, typeStr(cv.Type()), kinds))
-				o.Trivial = tb > sb
-			case tb == sb && ssig != tsig:
-				ok, fact := w.decoderInverts(kinds, cv)
-				r.add(rule, key, w.instrPos(cv), ok, fmt.Sprintf("same-width reinterpretation %s→%s (kinds %v): %s", typeStr(cv.X.Type()), typeStr(cv.Type()), kinds, fact))
-			default:
-				r.add(rule, key, w.instrPos(cv), false, fmt.Sprintf("narrowing conversion: operand ∈ %s does not fit %s (kinds here: %v) — a value outside the target range is silently altered", src, typeStr(cv.Type()), kinds))
+			for _, in := range b.Instrs {
+				cv, ok := in.(*ssa.Convert)
+				if !ok {
+					continue
+				}
+				sb, ssig, ok1 := intTypeInfo(w, cv.X.Type())
+				tb, tsig, ok2 := intTypeInfo(w, cv.Type())
+				if !ok1 || !ok2 {
+					continue
+				}
+				// only conversions of the reflected VALUE (v.Int(), v.Uint()); container
+				// sizes and octet extraction are other rules' business
+				if tk := f.term(cv.X).Key(); !strings.Contains(tk, "(reflect.Value).Int(") && !strings.Contains(tk, "(reflect.Value).Uint(") {
+					continue
+				}
+				n++
+				nm := fmt.Sprintf("%s(%s)", typeStr(cv.Type()), typeStr(cv.X.Type()))
+				cnt[nm]++
+				key := fmt.Sprintf("%s · conversion %s #%d", fnName(wd), nm, cnt[nm])
+				src, _ := f.ValueAt(cv.X, b)
+				_, changed := src.wrap(tb, tsig)
+				kinds := f.kindsAt(b)
+				switch {
+				case !changed:
+					o := r.add(rule, key, w.instrPos(cv), true, fmt.Sprintf("operand ∈ %s fits %s (kinds here: %v)", src, typeStr(cv.Type()), kinds))
+					o.Trivial = tb > sb
+				case tb == sb && ssig != tsig:
+					ok, fact := w.decoderInverts(kinds, cv)
+					r.add(rule, key, w.instrPos(cv), ok, fmt.Sprintf("same-width reinterpretation %s→%s (kinds %v): %s", typeStr(cv.X.Type()), typeStr(cv.Type()), kinds, fact))
+				default:
+					r.add(rule, key, w.instrPos(cv), false, fmt.Sprintf("narrowing conversion: operand ∈ %s does not fit %s (kinds here: %v) — a value outside the target range is silently altered", src, typeStr(cv.Type()), kinds))
+				}
 			}
 		}
 	}
 	r.floor(rule, n, 4)
+}
+
+// ruleNoIntThroughFloat: on the decode path no integer wider than a float64
+// mantissa (int64, uint64, int, uint) is converted to a floating-point type:
+// above 2^53 the conversion is not injective, so the decoded number changes.
+func (w *World) ruleNoIntThroughFloat(r *Report, rule string) {
+	eps := w.decodeEntryPoints()
+	reach := w.reachPkg(eps...)
+	n, bad := 0, 0
+	for _, fn := range w.SrcFuncs() {
+		if !reach[fn] {
+			continue
+		}
+		cnt := 0
+		for _, b := range fn.Blocks {
+			for _, in := range b.Instrs {
+				cv, ok := in.(*ssa.Convert)
+				if !ok {
+					continue
+				}
+				n++
+				sb, _, isInt := intTypeInfo(w, cv.X.Type())
+				tb, isB := cv.Type().Underlying().(*types.Basic)
+				if !isInt || !isB || tb.Info()&types.IsFloat == 0 {
+					continue
+				}
+				if sb <= 32 {
+					continue // every 32-bit integer is exactly representable in a float64
+				}
+				if tb.Kind() == types.Float64 {
+					// provably small operand?
+					f := w.flow(fn)
+					if s, _ := f.ValueAt(cv.X, b); s != nil && s.SubsetOf(mkSet(-(1<<53), 1<<53)) {
+						continue
+					}
+				}
+				bad++
+				cnt++
+				r.add(rule, fmt.Sprintf("%s · conversion %s(%s) #%d", fnName(fn), typeStr(cv.Type()), typeStr(cv.X.Type()), cnt), w.instrPos(cv), false,
+					"a 64-bit integer decoded from the wire is converted to a floating-point type: values above 2^53 (e.g. 2^53+1, MaxInt64) come back as a different number")
+			}
+		}
+	}
+	if bad == 0 {
+		r.add(rule, "census", "-", true, fmt.Sprintf("%d conversions in %d functions reachable from the decode entry points: none takes a 64-bit integer to a float", n, len(reach)))
+	}
+	r.floor(rule+" (conversions scanned)", n, 20)
 }
 
 var kindNames = map[int64]string{1: "Bool", 2: "Int", 3: "Int8", 4: "Int16", 5: "Int32", 6: "Int64", 7: "Uint", 8: "Uint8", 9: "Uint16", 10: "Uint32", 11: "Uint64", 12: "Uintptr", 13: "Float32", 14: "Float64", 15: "Complex64", 16: "Complex128", 17: "Array", 18: "Chan", 19: "Func", 20: "Interface", 21: "Map", 22: "Ptr", 23: "Slice", 24: "String", 25: "Struct", 26: "UnsafePointer"}
@@ -182,6 +248,57 @@ func (w *World) ruleFloatKinds(r *Report, rule string) {
 		e, d := tbl.enc[k], tbl.dec[k]
 		r.add(rule, "kind "+k, "-", e == "double" && d == "double", fmt.Sprintf("encoder writes %s as %q, readField reads it as %q", k, e, d))
 	}
+}
+
+// ruleNoValueRejection: on the branches of readField for the given kinds the
+// only error returned is the wire reader's own error (no value-dependent
+// rejection: e.g. every float32 including the infinities must come back).
+func (w *World) ruleNoValueRejection(r *Report, rule string, kinds []string) {
+	rf := w.fn("(*Decoder).readField")
+	if rf == nil {
+		r.undecided(rule, "(*Decoder).readField", "-", "anchor not found")
+		return
+	}
+	want := map[string]bool{}
+	for _, k := range kinds {
+		want[k] = true
+	}
+	f := w.flow(rf)
+	idx := errIndex(rf.Signature)
+	n := 0
+	for _, b := range rf.Blocks {
+		ret, ok := b.Instrs[len(b.Instrs)-1].(*ssa.Return)
+		if !ok || !f.Reachable(b) {
+			continue
+		}
+		ks := f.kindsAt(b)
+		if len(ks) == 0 {
+			continue
+		}
+		all := true
+		for _, k := range ks {
+			if !want[k] {
+				all = false
+			}
+		}
+		if !all {
+			continue
+		}
+		e := ret.Results[idx]
+		if isNilConst(e) {
+			continue
+		}
+		n++
+		okE := false
+		if ex, isEx := e.(*ssa.Extract); isEx {
+			if c, isC := ex.Tuple.(*ssa.Call); isC && c.Call.StaticCallee() != nil && w.inPkg(c.Call.StaticCallee()) {
+				okE = true
+			}
+		}
+		r.add(rule, fmt.Sprintf("(*Decoder).readField · error return #%d on the %v branch", n, ks), w.instrPos(ret), okE,
+			map[bool]string{true: "forwards the error of the wire read", false: "returns " + describeVal(e, nil) + ": a value that was read correctly is rejected depending on its content"}[okE])
+	}
+	r.floor(rule, n, 1)
 }
 
 type kindTable struct {
